@@ -31,6 +31,8 @@ REGISTRY = dict(
     technique="machine-checked proof in Coq (induction over the step list) + regenerated-fragment interface lemmas + differential correspondence on real PPO/A2C runs",
 )
 
+STOP_SIG = "callback-stop-loses-transition-then-stale-last-obs"
+
 HEADER = """From Coq Require Import List ZArith QArith Bool.
 From SB3V Require Import Model.Script Model.OnPolicyCollect Model.Pipeline.
 Import ListNotations.
@@ -51,6 +53,13 @@ def gen_case(rng, i):
         obs_kind = rng.choice(["box1", "box2", "dictc"])     # VecNormalize needs Box observations (or a Dict of them, with norm_obs_keys)
     elif i % 9 == 4:
         obs_kind = rng.choice(["image", "dictimg"])
+    if i % 12 == 7:
+        # a callback asks to stop at some step of the first learn(); training is continued without counter reset
+        ns_ = rng.randint(1, 5)
+        return {"id": i, "stop": {"call": 0, "step": rng.randint(1, 7)}, "lam": rng.choice([0.9, 1.0]), "sde_freq": -1, "vecnorm": False, "vn_obs": False, "split_fe": False,
+                "algo": rng.choice(["PPO", "A2C"]), "n_envs": n_envs, "n_steps": ns_, "act": rng.choice(["discrete", "box", "multibinary"]), "obs": rng.choice(["box1", "box2", "disc"]),
+                "gamma": rng.choice([0.5, 0.9]), "calls": [{"total": 40, "reset": True}, {"total": rng.randint(1, 2) * ns_ * n_envs, "reset": False}], "seed": rng.randint(0, 10**6),
+                "scripts": [se.gen_script(rng, max_len=5, tag_base=1000 * e, p_both=0.2, p_trunc=0.45) for e in range(n_envs)]}
     split_fe = rng.random() < 0.4                   # separate actor / critic feature extractors (with parameters)
     return {"id": i, "lam": rng.choice([0.5, 0.9, 0.95, 1.0]), "sde_freq": rng.choice([-1, 1, 2, 3]), "vecnorm": vecnorm, "vn_obs": rng.random() < 0.6, "split_fe": split_fe, "algo": rng.choice(["PPO", "A2C"]), "n_envs": n_envs, "n_steps": rng.randint(1, 6),
             "act": ACT_KINDS[i % len(ACT_KINDS)], "obs": obs_kind, "gamma": rng.choice([0.5, 0.9, 0.99]),
@@ -283,8 +292,22 @@ def run_impl(case):
         model.train = train_
     snaps = []
 
+    dropped, stops = [], []
+
     class Snap(BaseCallback):
+        def __init__(self, stop_at=None):
+            super().__init__()
+            self.stop_at, self.k, self.rs = stop_at, 0, 0
+
+        def _on_rollout_start(self):
+            self.rs = len(events)
+
         def _on_step(self):
+            self.k += 1
+            if self.stop_at is not None and self.k == self.stop_at:
+                stops.append(sum(1 for e_ in events if e_[0] == "fwd") - 1)    # env step whose callback returns False
+                dropped.append([self.rs, len(events)])                           # records of the rollout that is abandoned
+                return False
             return True
 
         def _on_rollout_end(self):
@@ -331,14 +354,16 @@ def run_impl(case):
     call_bounds = []
     for c in case["calls"]:
         call_bounds.append(len(snaps))
-        model.learn(total_timesteps=c["total"], callback=Snap(), reset_num_timesteps=c["reset"])
+        st_cfg = case.get("stop") or {}
+        model.learn(total_timesteps=c["total"], callback=Snap(st_cfg.get("step") if st_cfg.get("call") == len(call_bounds) - 1 else None),
+                    reset_num_timesteps=c["reset"])
     # V(terminal obs) recomputed is only valid before train(): recompute from recorded pv calls instead (same params within a rollout)
     space = base.action_space
     sp = {"low": np.asarray(space.low, dtype=np.float64).reshape(-1).tolist(), "high": np.asarray(space.high, dtype=np.float64).reshape(-1).tolist()} if isinstance(space, spaces.Box) else {}
     return {"events": events, "snaps": snaps, "gt": [base.envs[e].gt for e in range(ne)], "space": sp, "squash": bool(pol.squash_output),
             "seen_r": venv.seen_r if vn else None, "term_bad": venv.term_bad if vn else [],
             "use_sde": bool(getattr(model, "use_sde", False)), "sde_resets": sde_resets,
-            "sde_freq": int(getattr(model, "sde_sample_freq", -1))}
+            "sde_freq": int(getattr(model, "sde_sample_freq", -1)), "dropped": dropped, "stops": stops}
 
 
 def _worker(case):
@@ -358,15 +383,24 @@ def structure(case, impl):
     ne, ns = case["n_envs"], case["n_steps"]
     probs, out = [], []
     ev = impl["events"]
+    gone = set()
+    for a_, b_ in impl.get("dropped", []):
+        gone.update(range(a_, b_))
+    nfwd_before = []        # number of forward calls (= env steps) before event index i
+    cnt = 0
+    for e_ in ev:
+        nfwd_before.append(cnt)
+        cnt += int(e_[0] == "fwd")
     pos = 0
     for r, sn in enumerate(impl["snaps"]):
-        seg = ev[pos:sn["n_events"]]
+        idxs = [i for i in range(pos, sn["n_events"]) if i not in gone]
+        seg = [ev[i] for i in idxs]
         pos = sn["n_events"]
         fw = [j for j, e in enumerate(seg) if e[0] == "fwd"]
         if len(fw) != ns:
             probs.append(("oracle-steps-per-rollout", f"rollout {r}: {len(fw)} policy forward calls for n_steps={ns}"))
             return out, probs
-        ro = {"call": sn["call"], "fwd": [], "pv": [], "last": None}
+        ro = {"call": sn["call"], "fwd": [], "pv": [], "last": None, "g0": nfwd_before[idxs[fw[0]]]}
         for q, j in enumerate(fw):
             nxt = fw[q + 1] if q + 1 < len(fw) else len(seg)
             pvs = seg[j + 1:nxt]
@@ -439,7 +473,7 @@ def oracle(case, impl, ros):
         if ext != want_resets:
             probs.append(("oracle-env-reset-between-learn-calls", f"env {e} was reset from outside {ext} times, expected {want_resets} "
                                                                   f"(calls: {[c['reset'] for c in case['calls']]}; reset_num_timesteps=False must continue from the last observation)"))
-    if impl.get("use_sde"):
+    if impl.get("use_sde") and not case.get("stop"):
         f = impl["sde_freq"]
         for r in range(len(impl["snaps"])):
             got = [p - r * ns for p in impl["sde_resets"] if r * ns <= p < (r + 1) * ns]
@@ -451,7 +485,7 @@ def oracle(case, impl, ros):
         if not sn["full"]:
             probs.append(("oracle-buffer-not-full", f"rollout {r}: buffer not full at rollout end"))
         for t in range(ns):
-            g = r * ns + t
+            g = ro["g0"] + t
             f = ro["fwd"][t]
             boot_envs = [e for e in range(ne) if g < len(gt[e]) and gt[e][g]["trunc"] and not gt[e][g]["term"]]
             pvs = ro["pv"][t]
@@ -506,7 +540,7 @@ def oracle(case, impl, ros):
         for e in range(ne):
             cells = []
             for t in range(ns):
-                g = r * ns + t
+                g = ro["g0"] + t
                 if g >= len(gt[e]):
                     break
                 s = gt[e][g]
@@ -536,7 +570,7 @@ def oracle(case, impl, ros):
                         probs.append(("oracle-pipeline-return", f"rollout {r} step {t} env {e}: return {sn['returns'][t][e]} != advantage + value {got + cells[t][1]}"))
                         break
         # last values
-        g_last = (r + 1) * ns - 1
+        g_last = ro["g0"] + ns - 1
         for e in range(ne):
             if g_last >= len(gt[e]):
                 continue
@@ -551,6 +585,20 @@ def oracle(case, impl, ros):
                 probs.append(("oracle-last-values-not-critic-value", f"rollout {r} env {e}: last value {ro['last'][2][e]}, but the policy's critic (policy.forward on new_obs) gives {ro['last'][3][e]}"))
             if sn["last_values"][e] != ro["last"][2][e] or not close(sn["last_values"][e], sn["re_last_values"][e], 1e-4, 1e-4):
                 probs.append(("oracle-last-values", f"rollout {r} env {e}: last value {sn['last_values'][e]} vs recomputed {sn['re_last_values'][e]}"))
+    if impl.get("stops"):
+        # finding: the slot written first after a stop request (learn() continued with reset_num_timesteps=False) is built from the stale
+        # _last_obs / _last_episode_starts.  Classified precisely: only that slot, only observation / policy input / episode start
+        resumed = {g + 1 for g in impl["stops"]}
+        out = []
+        for sg, msg in probs:
+            hit = None
+            if sg in ("oracle-observation", "oracle-policy-input", "oracle-episode-start") and not case["calls"][-1]["reset"]:
+                for r, ro in enumerate(ros):
+                    for t in range(ns):
+                        if ro["g0"] + t in resumed and msg.startswith(f"rollout {r} step {t} env"):
+                            hit = ro["g0"] + t
+            out.append((STOP_SIG, f"first slot after the stop request at env step {hit - 1} (learn() continued with reset_num_timesteps=False): " + msg) if hit is not None else (sg, msg))
+        probs = out
     return probs
 
 
@@ -682,6 +730,38 @@ def compare(case, impl, ros, vals):
     return probs
 
 
+def stop_exprs(case, impl):
+    """stop cases: the stop-aware model of every env column over ALL env steps (flag = the callback returned False there)"""
+    from harness import scripted_envs as se
+
+    stops = set(impl["stops"])
+    fw = [e for e in impl["events"] if e[0] == "fwd"]
+    ex = []
+    for e in range(case["n_envs"]):
+        ps = [f"(mkP {coq_Z(g)} {coq_list(f[2][e], fq)} {fq(f[3][e])} {fq(f[4][e])} 0, {coq_bool(g in stops)})" for g, f in enumerate(fw)]
+        ex.append(f"show_collect_s ActId {fq(case['gamma'])} {se.coq_script(case['scripts'][e])} {coq_list(ps)}")
+    return ex
+
+
+def compare_stop(case, impl, ros, vals):
+    probs = []
+    ns = case["n_steps"]
+    stops = sorted(impl["stops"])
+    for e in range(case["n_envs"]):
+        by_id = {pid: (obs, start) for obs, start, pid in vals[e]}
+        for r, (ro, sn) in enumerate(zip(ros, impl["snaps"])):
+            for t in range(ns):
+                g = ro["g0"] + t
+                if g not in by_id:
+                    probs.append(("stop-slots", f"rollout {r} step {t} env {e}: the model writes no slot for env step {g}"))
+                    continue
+                obs, start = by_id[g]
+                if sn["obs_tags"][t][e] != obs or bool(sn["starts"][t][e]) != start:
+                    probs.append(("stop-slots", f"rollout {r} step {t} env {e} (env step {g}): impl (obs, episode_start) {(sn['obs_tags'][t][e], bool(sn['starts'][t][e]))}, "
+                                                f"Model.OnPolicyCollect.collect_s {(obs, start)}"))
+    return probs
+
+
 def run_cases(chk, cases, procs=4):
     import multiprocessing as mp
 
@@ -700,7 +780,7 @@ def run_cases(chk, cases, procs=4):
             continue
         structs[i] = ros
         try:
-            ex = model_exprs(c, im, ros)
+            ex = stop_exprs(c, im) if c.get("stop") else model_exprs(c, im, ros)
         except Exception as exn:  # noqa: BLE001
             results[i] = [("oracle-structure", f"cannot align records: {exn!r}")]
             continue
@@ -709,7 +789,7 @@ def run_cases(chk, cases, procs=4):
     vals = common.coq_eval_many(chk.pid, HEADER, exprs, shard=30, procs=4) if exprs else []
     for i, (a, b) in spans.items():
         o = oracle(cases[i], impls[i], structs[i])
-        m = compare(cases[i], impls[i], structs[i], vals[a:b])
+        m = (compare_stop if cases[i].get("stop") else compare)(cases[i], impls[i], structs[i], vals[a:b])
         results[i] = o + [("model-correspondence-" + s, msg) for s, msg in m]
     return impls, results
 
@@ -747,7 +827,10 @@ def main():
             hist["both_flags_steps"] += sum(1 for col in im["gt"] for s in col if s[0] == "step" and s[3] and s[4])
             if nontrivial(c, im):
                 distinct.add(json.dumps({k: c[k] for k in c if k != "id"}, sort_keys=True))
-        if probs and len(chk.violations) < 3:
+        if any(sg == STOP_SIG for sg, _ in probs) and not any(v["signature"] == STOP_SIG for v in chk.violations):
+            chk.violation(STOP_SIG, "; ".join(m for sg, m in probs if sg == STOP_SIG)[:700], {"case": c, "problems": [q for q in probs if q[0] == STOP_SIG][:6]}, found_input=True)
+        probs = [q for q in probs if q[0] != STOP_SIG]
+        if probs and len([v for v in chk.violations if v["signature"] != STOP_SIG]) < 3:
             oracle_bad = [s for s, _ in probs if s.startswith("oracle-")]
             sig = oracle_bad[0] if oracle_bad else probs[0][0]
             chk.violation(sig, "; ".join(m for s, m in probs if s == sig)[:700],
